@@ -15,6 +15,7 @@ import Driver.Sync
 import Driver.Contracts
 import Driver.RewardsNode
 import Driver.Abi
+import Driver.NodeCache
 /-
 One line per handler object. The first handler that understands a line answers it.
 -/
@@ -45,7 +46,8 @@ def registry : List Obj := [
   contractObj,
   rewardsNodeObj,
   pureObj pureAbi,
-  pureObj pureArRecv
+  pureObj pureArRecv,
+  mkObj ([] : NcAll) ncStep
 ]
 
 end ZV.Driver
